@@ -604,6 +604,79 @@ func c06(c *core.Ctx) {
 	}
 
 	// auto-destroy tails
+	// C06.retire: a deleted key starts from scratch. The in-flight tracker hands the same record object to
+	// every CreateTreasure of a key until the record is published; if publication did not retire the entry,
+	// a later delete + re-create of the key would get the old object back (old counter value, old set
+	// members, still marked deleted).
+	rRt := c.Rule("C06.retire", "the function that makes a new record visible in the key index also removes the record's key from the in-flight tracker on every path that follows (a key that is deleted later is created afresh by the next CreateTreasure, never resurrected from a stale tracker entry)", 1)
+	{
+		_, swSt := p.StructOf(pkgSwamp, "swamp")
+		keyIdx := core.StructFields(swSt)["beaconKey"]
+		// the tracker: a sync.Map field of the swamp that CreateTreasure both loads from and stores into
+		var tracker *types.Var
+		if ct := p.FnOpt(pkgSwamp + ".swamp.CreateTreasure"); ct != nil && ct.Decl.Body != nil {
+			loads, stores := map[*types.Var]bool{}, map[*types.Var]bool{}
+			for _, a := range core.Accesses(ct.Info(), ct.Decl.Body, nil, false) {
+				switch a.Form {
+				case "method:Load":
+					loads[a.Field] = true
+				case "method:Store", "method:LoadOrStore":
+					stores[a.Field] = true
+				}
+			}
+			_ = loads
+			for f := range stores {
+				if isSyncMapVar(f) {
+					tracker = f
+				}
+			}
+		}
+		if keyIdx == nil {
+			rRt.Bad(pkgSwamp+".swamp:key-index", token.NoPos, "the swamp has no beaconKey field any more (rule needs review)")
+		} else if tracker == nil {
+			rRt.Ok(pkgSwamp+".swamp.CreateTreasure:no-tracker", token.NoPos, "CreateTreasure keeps no in-flight tracker: nothing to retire")
+		} else {
+			n := 0
+			for _, f := range p.FuncsIn(pkgSwamp) {
+				if f.Decl.Body == nil {
+					continue
+				}
+				info := f.Info()
+				var adds []*ast.CallExpr
+				core.Calls(f.Decl.Body, false, func(call *ast.CallExpr) {
+					if fo := core.Callee(info, call); fo != nil && fo.Name() == "Add" && core.FieldOf(info, core.RecvExpr(call)) == keyIdx {
+						adds = append(adds, call)
+					}
+				})
+				if len(adds) == 0 {
+					continue
+				}
+				c.Touch(f)
+				fl := core.NewFlow(p, info, f.Decl.Body)
+				retires := core.NodeHasCall(func(call *ast.CallExpr) bool {
+					fo := core.Callee(info, call)
+					if fo == nil || core.FieldOf(info, core.RecvExpr(call)) != tracker {
+						return false
+					}
+					switch fo.Name() {
+					case "Delete", "LoadAndDelete", "CompareAndDelete":
+						return true
+					}
+					return false
+				})
+				for _, a := range adds {
+					n++
+					la := fl.MustLocate(a)
+					rRt.Check(!fl.ExitWithout(la, nil, false, retires), f.Key+":publish-retires-tracker-entry", a.Pos(), "every path after the key-index Add removes the key from the tracker",
+						"a new record is made visible in the key index here and the function can return without removing its key from the in-flight tracker: after the key is deleted, the next CreateTreasure returns the old record object (an increment continues from the old value, a push brings the old members back, a flushed record is written as deleted)")
+				}
+			}
+			if n == 0 {
+				rRt.Bad(pkgSwamp+":publisher", token.NoPos, "no function adds records to the key index")
+			}
+		}
+	}
+
 	rA := c.Rule("C06.autodestroy", "every swamp method that removes records through a delete primitive (a function that removes from the key index, or its thin wrapper) checks for an empty swamp afterwards and then ceases its vigil before Destroy (Destroy waits for all vigils)", 3)
 	// delete primitives, by role: functions that remove a record from the key index, and thin
 	// wrappers whose whole body is a call to such a function
@@ -898,6 +971,127 @@ func c09(c *core.Ctx) {
 	rOw := c.Rule("C09.idowner", "a guard ID received together with its record is used only on that record (shared with C15.idowner): a release or a guarded write on another record with the caller's ID breaks the exclusion of both records", 5)
 	guardOwnerRule(c, rOw)
 
+	// C09.snapshot: decisions inside a guarded region are taken on what the guard protects, not on what a
+	// lookup said before the guard was acquired.
+	rSn := c.Rule("C09.snapshot", "in a function of the swamp that acquires a record guard, a value derived from a key-index (or in-flight tracker) lookup made before the guard was acquired - the looked-up pointer, or a flag set on the branch that tested it - is not read by a branch condition of the guarded region (deferred cleanup literals excepted): between the lookup and the guard another request can create, patch or delete the key, so the flag describes a state that may be gone", 10)
+	{
+		_, swSt := p.StructOf(pkgSwamp, "swamp")
+		keyIdx := core.StructFields(swSt)["beaconKey"]
+		n := 0
+		for _, f := range p.FuncsIn(pkgSwamp) {
+			if f.Decl.Body == nil || keyIdx == nil {
+				continue
+			}
+			info := f.Info()
+			var g *ast.CallExpr
+			core.Calls(f.Decl.Body, false, func(call *ast.CallExpr) {
+				if fo := core.Callee(info, call); fo != nil && fo.Name() == "StartTreasureGuard" && g == nil {
+					g = call
+				}
+			})
+			if g == nil {
+				continue
+			}
+			recObj := core.ObjOf(info, core.RecvExpr(g))
+			// pre-guard lookups
+			lookedUp := map[types.Object]bool{}
+			ast.Inspect(f.Decl.Body, func(x ast.Node) bool {
+				if _, isLit := x.(*ast.FuncLit); isLit {
+					return false
+				}
+				as, ok := x.(*ast.AssignStmt)
+				if !ok || as.Pos() > g.Pos() || len(as.Lhs) != len(as.Rhs) {
+					return true
+				}
+				for i, r := range as.Rhs {
+					call, isCall := core.Unparen(r).(*ast.CallExpr)
+					if !isCall {
+						continue
+					}
+					if fo := core.Callee(info, call); fo != nil && (fo.Name() == "Get" || fo.Name() == "Load") && core.FieldOf(info, core.RecvExpr(call)) != nil {
+						fld := core.FieldOf(info, core.RecvExpr(call))
+						if fld == keyIdx || isSyncMapVar(fld) {
+							if o := core.ObjOf(info, as.Lhs[i]); o != nil {
+								lookedUp[o] = true
+							}
+						}
+					}
+				}
+				return true
+			})
+			if len(lookedUp) == 0 {
+				continue
+			}
+			n++
+			c.Touch(f)
+			fl := core.NewFlow(p, info, f.Decl.Body)
+			lg := fl.MustLocate(g)
+			// flags: bool locals assigned before the guard under a test of a looked-up value, or from one
+			flags := map[types.Object]bool{}
+			fl.Nodes(func(l core.Loc, nd ast.Node) {
+				as, ok := nd.(*ast.AssignStmt)
+				if !ok || as.Pos() > g.Pos() || len(as.Lhs) != len(as.Rhs) {
+					return
+				}
+				for i, lhs := range as.Lhs {
+					o := core.ObjOf(info, lhs)
+					if o == nil || lookedUp[o] {
+						continue
+					}
+					if b, isB := o.Type().Underlying().(*types.Basic); !isB || b.Kind() != types.Bool {
+						continue
+					}
+					dep := false
+					for lo := range lookedUp {
+						if core.Mentions(info, as.Rhs[i], lo) {
+							dep = true
+						}
+						for _, ft := range fl.FactsAt(l) {
+							if core.Mentions(info, ft.Expr, lo) {
+								dep = true
+							}
+						}
+					}
+					if dep {
+						flags[o] = true
+					}
+				}
+			})
+			var bad ast.Expr
+			var badObj types.Object
+			for bi := range fl.G.Blocks {
+				if !fl.Reachable(bi) {
+					continue
+				}
+				cond := fl.CondOf(bi)
+				if cond == nil || cond.Pos() < g.End() {
+					continue
+				}
+				if !fl.Dominates(lg, core.Loc{B: bi, I: len(fl.G.Blocks[bi].Nodes) - 1}) {
+					continue
+				}
+				for o := range flags {
+					if core.Mentions(info, cond, o) {
+						bad, badObj = cond, o
+					}
+				}
+				for o := range lookedUp {
+					if o != recObj && core.Mentions(info, cond, o) {
+						bad, badObj = cond, o
+					}
+				}
+			}
+			if bad != nil {
+				rSn.Bad(f.Key+":guarded-decision-on-pre-guard-lookup", bad.Pos(), "this condition of the guarded region reads "+badObj.Name()+", which was computed from a lookup made before the guard was acquired: a request that created or changed the key in between is overwritten or ignored (lost update)")
+			} else {
+				rSn.Ok(f.Key+":guarded-decision-on-pre-guard-lookup", f.Decl.Pos(), "no guarded branch reads a pre-guard lookup result")
+			}
+		}
+		if n == 0 {
+			rSn.Ok(pkgSwamp+":no-pre-guard-lookups", token.NoPos, "no guarded function keeps a pre-guard lookup result")
+		}
+	}
+
 	rT := c.Rule("C09.toctou", "read-modify-write entry points (Increment*, PatchFields, PatchExpired per record) read the content type only after acquiring the guard; CreateTreasure does its lookups and the registration of the in-flight record while holding createMu", 12)
 	for _, f := range p.FuncsIn(pkgSwamp) {
 		if f.Decl.Body == nil {
@@ -1068,4 +1262,9 @@ func loopSubject(n ast.Node) ast.Expr {
 		}
 	}
 	return &ast.Ident{Name: "for"}
+}
+
+func isSyncMapVar(v *types.Var) bool {
+	n, ok := v.Type().(*types.Named)
+	return ok && n.Obj().Pkg() != nil && n.Obj().Pkg().Path() == "sync" && n.Obj().Name() == "Map"
 }
